@@ -442,3 +442,23 @@ def run(ctx):
         ctx.ob(rule, '%s.%s' % (CLS, key), t.n > 0 and t.bad is None, where(sel),
                '%s -- %s [%d evaluations over %d configurations, %d failing]' % (
                    text, t.bad or 'holds', t.n, len(configs), t.nbad))
+
+    # ---- one clock: with a non-default `domain` argument (the in-tree users pass domain="usb") every register of the FIFO
+    # and both memory ports must still be clocked by one and the same domain -- a pointer left in another domain is updated
+    # by a foreign clock and the queue state no longer follows the strobes
+    dir_ = ctx.ir(CLS, 'gateware.memory', width=8, depth=4, domain='usb')
+    doms = {}
+    for a in dir_.assigns:
+        if a.domain != 'comb':
+            doms.setdefault(a.domain, []).append(a)
+    ports = {}
+    for sm in dir_.submodules:
+        o = getattr(sm, 'obj', None)
+        d = getattr(o, 'kwargs', {}).get('domain') if o is not None else None
+        if d is not None:
+            ports[sm.name] = d if isinstance(d, str) else getattr(d, 'val', d)
+    alld = set(doms) | {v for v in ports.values() if isinstance(v, str)}
+    minority = min(doms.values(), key=len) if len(doms) > 1 else []
+    ctx.ob('C18.one-clock', '%s.domain[domain=usb]' % CLS, len(alld) == 1, minority[0].loc if minority else None,
+           'all registers and memory ports of the FIFO must share one clock domain when it is built with domain="usb": '
+           'domains %s; %s' % (sorted(map(str, alld)), [q.fmt(a)[:140] for a in minority[:3]]))
